@@ -540,8 +540,24 @@ class R:
             return float(s.coef)
         raise TypeError("float() of a symbolic value")
 
+    INT_RANGE = 8
+
     def __int__(s):
-        raise TypeError("int() of a symbolic value")
+        """int() truncates towards zero: concretised by forking over the values 0, +-1, ..., +-INT_RANGE (beyond that the path
+        is cut and counted as an unwinding-bound hit)"""
+        if not s.f:
+            return int(s.coef)
+        if not CTX.forking:
+            raise TypeError("int() of a symbolic value outside explore()")
+        if s >= 0:
+            for k in range(R.INT_RANGE + 1):
+                if s < k + 1:
+                    return k
+        else:
+            for k in range(R.INT_RANGE + 1):
+                if s > -(k + 1):
+                    return -k
+        raise DepthBound(f"int() of a symbolic value beyond +-{R.INT_RANGE}")
 
     def __hash__(s):
         return id(s)
